@@ -38,7 +38,10 @@ Definition upd (f : fsys) (p : path) (n : node) : fsys :=
   fun q => if String.eqb q p then n else f q.
 
 (* ---------------------------------------------------------------- step IR *)
-Inductive exn := FileExistsError | IsADirectoryError | IllegalState | OSError | WarningRaised | ModelStuck.
+(* IllegalState: a format call raised an exception that is not a Warning subclass;
+   WarningClass: it raised a Warning subclass (a warning the user's filters turned into an error);
+   WarningRaised: the warning hand-over after the with block raised *)
+Inductive exn := FileExistsError | IsADirectoryError | IllegalState | WarningClass | OSError | WarningRaised | ModelStuck.
 Inductive result := Ok | Err (e : exn).
 
 Inductive target := Dest | Temp.
@@ -90,6 +93,7 @@ Record problem := mkproblem { p_objs : sec -> list object; p_children : object }
 
 Record adversary := mkadv {
   a_fmt : nat -> bool;      (* fail the k-th format_for_mcnp_input call (counted from 0) *)
+  a_fmtw : nat -> bool;     (* ... with an exception that is a Warning subclass *)
   a_wr : nat -> bool;       (* fail the j-th fh.write call *)
   a_child : bool;           (* _run_children_format_for_mcnp raises *)
   a_open : bool;            (* open(..., "w") raises OSError (e.g. read-only directory) *)
@@ -99,7 +103,7 @@ Record adversary := mkadv {
   a_post : bool             (* _handle_warnings raises (warnings turned into errors) *)
 }.
 Definition no_faults : adversary :=
-  mkadv (fun _ => false) (fun _ => false) false false false false false false.
+  mkadv (fun _ => false) (fun _ => false) (fun _ => false) false false false false false false.
 
 Record env := mkenv {
   e_dest : path; e_temp : path; e_ov : bool; e_prob : problem; e_adv : adversary }.
@@ -157,10 +161,13 @@ Fixpoint write_lines (E : env) (ls : list string) (st : state) : state * result 
 Definition do_format (E : env) (o : object) (st : state) : state * result :=
   let k := nfmt st in
   match o with
-  | None => (mkstate (fs st) (handle st) (cur st) (S k) (nwr st) (pend st), Err IllegalState)
+  | None => (mkstate (fs st) (handle st) (cur st) (S k) (nwr st) (pend st),
+             (* the adversary's failure, if any, comes before the object's own *)
+             Err (if a_fmt (e_adv E) k && a_fmtw (e_adv E) k then WarningClass else IllegalState))
   | Some ls =>
       if a_fmt (e_adv E) k
-      then (mkstate (fs st) (handle st) (cur st) (S k) (nwr st) (pend st), Err IllegalState)
+      then (mkstate (fs st) (handle st) (cur st) (S k) (nwr st) (pend st),
+            Err (if a_fmtw (e_adv E) k then WarningClass else IllegalState))
       else (mkstate (fs st) (handle st) ls (S k) (nwr st) (pend st), Ok)
   end.
 
@@ -301,18 +308,20 @@ Definition run_writer (w : writer) (E : env) (f : fsys) : fsys * result :=
 
 (* the k-th crash point, one at a time *)
 Inductive fault :=
-| FNone | FFormat (k : nat) | FWrite (j : nat) | FChild | FOpen | FClose | FReplace | FRemove | FPost.
+| FNone | FFormat (k : nat) | FFormatW (k : nat) | FWrite (j : nat) | FChild | FOpen | FClose | FReplace | FRemove | FPost.
 Definition adv_of (x : fault) : adversary :=
+  let no := fun _ : nat => false in
   match x with
   | FNone => no_faults
-  | FFormat k => mkadv (Nat.eqb k) (fun _ => false) false false false false false false
-  | FWrite j => mkadv (fun _ => false) (Nat.eqb j) false false false false false false
-  | FChild => mkadv (fun _ => false) (fun _ => false) true false false false false false
-  | FOpen => mkadv (fun _ => false) (fun _ => false) false true false false false false
-  | FClose => mkadv (fun _ => false) (fun _ => false) false false true false false false
-  | FReplace => mkadv (fun _ => false) (fun _ => false) false false false true false false
-  | FRemove => mkadv (fun _ => false) (fun _ => false) false false false false true false
-  | FPost => mkadv (fun _ => false) (fun _ => false) false false false false false true
+  | FFormat k => mkadv (Nat.eqb k) no no false false false false false false
+  | FFormatW k => mkadv (Nat.eqb k) (Nat.eqb k) no false false false false false false
+  | FWrite j => mkadv no no (Nat.eqb j) false false false false false false
+  | FChild => mkadv no no no true false false false false false
+  | FOpen => mkadv no no no false true false false false false
+  | FClose => mkadv no no no false false true false false false
+  | FReplace => mkadv no no no false false false true false false
+  | FRemove => mkadv no no no false false false false true false
+  | FPost => mkadv no no no false false false false false true
   end.
 Definition write_with_failure_at (x : fault) (w : writer) (d t : path) (ov : bool) (p : problem) (f : fsys)
   : fsys * result :=
@@ -638,7 +647,7 @@ Definition parse_problem (s : string) : option problem :=
   | _ => None
   end.
 
-Record advl := mkadvl { l_fmt : list nat; l_wr : list nat; l_flags : list string }.
+Record advl := mkadvl { l_fmt : list nat; l_fmtw : list nat; l_wr : list nat; l_flags : list string }.
 Definition mem_nat (n : nat) (l : list nat) : bool := existsb (Nat.eqb n) l.
 Definition mem_str (s : string) (l : list string) : bool := existsb (String.eqb s) l.
 Fixpoint parse_adv_items (l : list string) (acc : advl) : option advl :=
@@ -646,22 +655,27 @@ Fixpoint parse_adv_items (l : list string) (acc : advl) : option advl :=
   | [] => Some acc
   | String "f" r :: rest =>
       match parse_nat r with
-      | Some k => parse_adv_items rest (mkadvl (k :: l_fmt acc) (l_wr acc) (l_flags acc))
+      | Some k => parse_adv_items rest (mkadvl (k :: l_fmt acc) (l_fmtw acc) (l_wr acc) (l_flags acc))
+      | None => None
+      end
+  | String "g" r :: rest =>     (* the k-th format call raises a Warning subclass *)
+      match parse_nat r with
+      | Some k => parse_adv_items rest (mkadvl (k :: l_fmt acc) (k :: l_fmtw acc) (l_wr acc) (l_flags acc))
       | None => None
       end
   | String "w" r :: rest =>
       match parse_nat r with
-      | Some k => parse_adv_items rest (mkadvl (l_fmt acc) (k :: l_wr acc) (l_flags acc))
+      | Some k => parse_adv_items rest (mkadvl (l_fmt acc) (l_fmtw acc) (k :: l_wr acc) (l_flags acc))
       | None => None
       end
   | x :: rest =>
       if mem_str x ["c"; "o"; "x"; "r"; "m"; "p"]
-      then parse_adv_items rest (mkadvl (l_fmt acc) (l_wr acc) (x :: l_flags acc))
+      then parse_adv_items rest (mkadvl (l_fmt acc) (l_fmtw acc) (l_wr acc) (x :: l_flags acc))
       else None
   end.
 Definition parse_adv (s : string) : option adversary :=
-  match parse_adv_items (list_of ","%char s) (mkadvl [] [] []) with
-  | Some a => Some (mkadv (fun k => mem_nat k (l_fmt a)) (fun j => mem_nat j (l_wr a))
+  match parse_adv_items (list_of ","%char s) (mkadvl [] [] [] []) with
+  | Some a => Some (mkadv (fun k => mem_nat k (l_fmt a)) (fun k => mem_nat k (l_fmtw a)) (fun j => mem_nat j (l_wr a))
                           (mem_str "c" (l_flags a)) (mem_str "o" (l_flags a)) (mem_str "x" (l_flags a))
                           (mem_str "r" (l_flags a)) (mem_str "m" (l_flags a)) (mem_str "p" (l_flags a)))
   | None => None
@@ -670,7 +684,7 @@ Definition parse_adv (s : string) : option adversary :=
 Definition show_exn (e : exn) : string :=
   match e with
   | FileExistsError => "FileExistsError" | IsADirectoryError => "IsADirectoryError"
-  | IllegalState => "IllegalState" | OSError => "OSError" | WarningRaised => "WarningRaised"
+  | IllegalState => "IllegalState" | WarningClass => "WarningClass" | OSError => "OSError" | WarningRaised => "WarningRaised"
   | ModelStuck => "ModelStuck"
   end.
 Definition show_result (r : result) : string := match r with Ok => "ok" | Err e => show_exn e end.
